@@ -44,6 +44,9 @@ class FrameItem(EFLRItem):
 
         super().__init__(name, parent=parent, **kwargs)
 
+        #: index characteristics derived from the data at the last write: (attribute, part) -> assigned value
+        self._derived_from_data: dict = {}
+
     @staticmethod
     def convert_encrypted(value: Union[str, int, float, bool]) -> int:
         """Convert a provided 'encrypted' attribute value to an integer flag (0 or 1)."""
@@ -96,6 +99,14 @@ class FrameItem(EFLRItem):
             if getattr(attr, key) is None and value is not None:
                 logger.debug(f"Setting {attr.label}.{key} of {self} to {value}")
                 setattr(attr, key, value)
+                self._derived_from_data[(attr, key)] = getattr(attr, key)
+
+        # what was derived from the data of a previous write (and not changed by the user since) is not the user's
+        # choice: forget it, so that it is derived anew from the data written now
+        for (attr, key), derived_value in self._derived_from_data.items():
+            if getattr(attr, key) is derived_value:
+                setattr(attr, f'_{key}', None)
+        self._derived_from_data.clear()
 
         index_channel: ChannelItem = self.channels.value[0]
         index_data = data[index_channel.name][:]
